@@ -6,7 +6,7 @@ from concurrent.futures import ThreadPoolExecutor
 import common, lbtool, owntool
 
 C02_KINDS = ('view-corrupt', 'free-while-view-live', 'content-not-intact', 'impl-crash')
-C03_KINDS = ('double-free', 'foreign-free', 'caller-memory-freed', 'caller-memory-written', 'freed-block-in-chain', 'private-copy-in-pool-block', 'impl-crash')
+C03_KINDS = ('hang:', 'double-free', 'foreign-free', 'caller-memory-freed', 'caller-memory-written', 'freed-block-in-chain', 'private-copy-in-pool-block', 'impl-crash')
 KNOWN_TAG = 'D4-split-block'
 HARNESS_TIMEOUT = int(os.environ.get('VERIF_HARNESS_TIMEOUT', '900'))
 MODEL_VISIBLE = ('double-free', 'free-while-view-live', 'freed-block-in-chain', 'foreign-free', 'caller-memory-freed')
@@ -189,13 +189,27 @@ def check(rep, prop, kinds, modules):
                         'caller slices are checksummed; results and node contents are compared with the Lean model. distinct_nontrivial = distinct (event list, final dump) pairs')
     rep.assumptions += ['A-atomic-refer: operations on buffers sharing a refcount interleave as whole operations (single goroutine in the harness)',
                         'contract clause 9: book/bookAck only on buffers never written through the Writer API (the connection input buffer)']
+    if prop == 'C02':
+        # the same property seen through a connection: zero-copy results of Next/Peek held across later
+        # Reader calls (including net.Conn Read) on real sockets must keep their content until Release
+        import re
+        rbin, o2 = common.build_harness('streamh')
+        if rbin:
+            nreal = 400 if rep.tier == 'thorough' else 40
+            pr = subprocess.run([rbin, '-seed', str(rep.seed), '-n', str(nreal), '-par', '8'], stdout=subprocess.PIPE, stderr=subprocess.STDOUT, text=True, timeout=3600)
+            lines = [l for l in pr.stdout.split('\n') if l.startswith('scn ')]
+            held = [re.sub(r'ops=map\[[^]]*\]', '', l) for l in lines if 'changed before Release' in l]
+            rep.cov['connection_scenarios'] = len(lines)
+            for l in held:
+                problems.append((['# re-run: go/bin/streamh -seed %d -n %d -only <id>' % (rep.seed, nreal), l], 0, 'view-corrupt', 'on a real connection: ' + l[:400]))
     mine = [p for p in problems if p[2] in kinds]
     corr = [p for p in problems if p[2] in ('ledger-differs',)]
     other = [p for p in problems if p[2] not in kinds and p[2] != 'ledger-differs']
     if other: rep.notes.append('%d problem(s) belonging to the sibling property (reported by its own check): %s' % (len(other), other[0][3][:200]))
     if mine:
         seq, idx, kind, detail = mine[0]
-        rep.violation('%s: %d sequences; first (shrunk) is the replay: %s' % (kind, len(mine), detail), shrink(binary, seq[:idx + 1], kind, os.path.join(wd, 'shrink')))
+        small = seq if seq and seq[0].startswith('#') else shrink(binary, seq[:idx + 1], kind, os.path.join(wd, 'shrink'))
+        rep.violation('%s: %d sequences; first (shrunk) is the replay: %s' % (kind, len(mine), detail), small)
     elif corr:
         seq, idx, kind, detail = corr[0]
         rep.violation('correspondence Netpoll.Buf.Owner <-> nocopy_linkbuffer.go (allocator events) no longer checks and the ownership oracle found no failing input in %d sequences: %s' % (n, detail),
